@@ -26,7 +26,7 @@ var flagGroupAnywhere = regexp.MustCompile(`\(\?[-misU]+[:)]`)
 // flags only as one leading (?is)-style group with sorted letters from {i,s}, no unescaped
 // inline flag group after it (E); and it must parse as an RE2 expression (F). A runtime
 // panic in the pipeline fails the contract (C19).
-//@ directive[C02,C19] bounded BoundedGenerate quick=4 thorough=5 tokens="a" "\"" "\\\\" "\\\"" "." "^" "(?:b|c)" "\\x5c" "\\s" "\\(?i:a\\)" "\x01" "é"
+//@ directive[C02,C19] bounded BoundedGenerate quick=4 thorough=5 tokens="a" "\"" "\\\\" "\\\"" "." "^" "(?:b|c)" "\\x5c" "\\s" "\\(?i:a\\)" "\x01" "é" "(?i:d)"
 //@ directive[C02] bounded BoundedGenerateFlags quick=3 thorough=4 tokens="a" "." "^x" "(?i:b.)" "\\s" "$"
 
 func BoundedGenerate(in string) string { return boundedGenerate("", in) }
